@@ -70,8 +70,10 @@ DoCancel(x, ret) ==
   /\ kicked' = IF ret /\ Alive(x) THEN kicked \cup {x} ELSE kicked
   /\ UNCHANGED <<rs, taint>>
 
+\* a resumed routine must run again only if it is unstarted or inside wait(); inside another blocking call it may
+\* silently re-check its condition and wait again
 DoResume(x, ret) ==
-  /\ kicked' = IF ret /\ Alive(x) THEN kicked \cup {x} ELSE kicked
+  /\ kicked' = IF ret /\ Alive(x) /\ (rs[x] = "created" \/ pend[x].op = "Wait") THEN kicked \cup {x} ELSE kicked
   /\ taint' = IF ret /\ Alive(x) /\ pend[x].op \in (Blocking \ {"Yield"}) THEN [taint EXCEPT ![x] = TRUE] ELSE taint
   /\ UNCHANGED <<rs, canceled>>
 
